@@ -4396,6 +4396,10 @@ impl Interpreter {
         // Iterate: call next() until done is true
         let mut values = Vec::new();
         let next_key = PropertyKey::String(self.intern("next"));
+        // The values collected so far are only held by this Vec, which the collector
+        // cannot see, while every further next() call may allocate (and collect):
+        // root them until they are handed to the caller.
+        let values_guard = self.heap.create_guard();
 
         loop {
             // Get the next method
@@ -4445,6 +4449,9 @@ impl Interpreter {
                     .unwrap_or(JsValue::Undefined)
             };
 
+            if let JsValue::Object(obj) = &iter_value {
+                values_guard.guard(obj.cheap_clone());
+            }
             values.push(iter_value);
         }
 
